@@ -324,6 +324,10 @@ func runC14(c *core.Ctx) core.Meta {
 		st4.Ob(false)
 		c.ReportAt("R14.4", u.Target.Fn(), u.Target.Instr.Pos(), "passBarrier:guard", "the barrier is released on a path that did not find every wavefront of the group at the barrier")
 	}
+	// R14.8 a wavefront that ends leaves the pool alone
+	st8 := c.Rule("R14.8", "removing a finished wavefront from a wavefront pool (or any list of the compute unit) takes out exactly that wavefront: every append / in-place copy of the compute-unit package that joins two windows of one slice is append(s[:i], s[i+1:]...) or copy(s[i:], s[i+1:]) followed by a cut by one. A shifted window removes a live wavefront with the finished one: it is never scheduled again, its work-group never completes and the wavefronts of its group wait at the next barrier for ever", 1)
+	checkSliceRemovalIdiom(c, st8, "R14.8", pcu, "a live wavefront leaves the pool with the finished one and is never scheduled again")
+
 	// R14.7 the release reaches every wavefront of the group, not only those that found room in the barrier buffer
 	st7 := c.Rule("R14.7", "passBarrier makes every unfinished wavefront of the work-group ready: each call that sets a wavefront ready (UpdatePCAndSetReady), helpers of passBarrier expanded, takes a wavefront drawn from the work-group's own wavefront list (wg.Wfs). A wavefront that reaches s_barrier while the barrier buffer is full waits in state WfAtBarrier without an entry in the buffer; a release that walks the buffer leaves it at the barrier for ever, and later barriers of the group look complete without it", 1)
 	if fn := c.MustFunc("R14.7", cuPkg, "SchedulerImpl.passBarrier"); fn != nil {
@@ -835,6 +839,44 @@ func checkOutstandingCounters(c *core.Ctx, pcu *PkgInfo, prov *core.Prov, rule s
 				st3.Instances++
 				st3.Ob(false)
 				c.ReportAt(rule, fn, in.Pos(), f+":write", f+" is written as "+short(pv)+" (neither +1 nor -1)")
+			}
+		}
+	})
+	// an increment belongs to the cycle in which the instruction is issued: a function that can
+	// refuse the instruction (return false: the unit retries it in the next cycle) must not have
+	// incremented a counter on that path
+	pcu.Instrs(func(fn *ssa.Function, in ssa.Instruction) {
+		for _, f := range []string{"OutstandingVectorMemAccess", "OutstandingScalarMemAccess"} {
+			s, ok := storeToField(in, "Wavefront."+f)
+			if !ok || !strings.HasSuffix(prov.Of(s.Val), "."+f+"+1)") {
+				continue
+			}
+			if fn.Signature.Results().Len() != 1 {
+				continue
+			}
+			if bt, isB := fn.Signature.Results().At(0).Type().Underlying().(*types.Basic); !isB || bt.Kind() != types.Bool {
+				continue
+			}
+			g := core.BuildGraph(fn, 0, nil)
+			n := g.NodeOf(in)
+			if n == nil {
+				continue
+			}
+			st3.Instances++
+			var bad *core.Node
+			g.Walk(core.After(n, nil), core.WalkOpts{ForwardOnly: true}, func(x core.State) {
+				r, isR := x.N.Instr.(*ssa.Return)
+				if !isR || len(r.Results) != 1 || bad != nil {
+					return
+				}
+				if core.EvalFact(x.N, r.Results[0], x.F) < 0 {
+					bad = x.N
+				}
+			})
+			st3.Ob(bad == nil)
+			st3.Sample("%s: no refusal (return false) is reachable after %s++: %v", core.FuncName(fn), f, bad == nil)
+			if bad != nil {
+				c.ReportAt(rule, fn, in.Pos(), f+"++:before-refusal", core.FuncName(fn)+" increments "+f+" and can then refuse the instruction ("+c.Position(bad.Instr.Pos())+": return false): the unit offers the same instruction again in the next cycle and the counter grows once per stalled cycle, while only one return decrements it - the wavefront's next s_waitcnt and its s_endpgm never pass")
 			}
 		}
 	})
